@@ -16,12 +16,29 @@ from typing import Any
 from easynetwork.lowlevel.api_async.backend._asyncio.stream import socket as _sock
 
 EVENTS: list[tuple] = []
+DELIVERED = [0]  # bytes handed by the loop to the protocol so far (all deliveries, in order) in this scenario
+LOST_RANGES: list[tuple[int, int]] = []  # (stream offset, nbytes) of deliveries dropped by the known mechanism
 _installed = False
 _P = "_StreamReaderBufferedProtocol__"
+_PENDING_EXTERNAL: dict[int, tuple[int, int]] = {}
 
 
 def reset() -> None:
     EVENTS.clear()
+    DELIVERED[0] = 0
+    LOST_RANGES.clear()
+
+
+def reduce_stream(stream: bytes) -> bytes:
+    """the byte stream as the layers above the protocol must have seen it if the ONLY thing that went wrong is the known
+    mechanism: the original stream minus the byte ranges of the dropped deliveries (single connection per scenario)"""
+    out = bytearray()
+    pos = 0
+    for off, n in sorted(LOST_RANGES):
+        out += stream[pos:off]
+        pos = max(pos, off + n)
+    out += stream[pos:]
+    return bytes(out)
 
 
 def lost_events() -> list[tuple]:
@@ -40,13 +57,18 @@ def install() -> None:
     def buffer_updated(self, nbytes: int) -> None:
         ext = getattr(self, _P + "external_buffer_view", None)
         waiter = getattr(self, _P + "read_waiter", None)
+        off = DELIVERED[0]
+        DELIVERED[0] += nbytes
         if ext is not None:
             if waiter is None or waiter.done():
-                EVENTS.append(("cancel-then-read", nbytes))
+                EVENTS.append(("cancel-then-read", nbytes, off))
+                LOST_RANGES.append((off, nbytes))
             else:
-                EVENTS.append(("external-delivery", nbytes))
+                EVENTS.append(("external-delivery", nbytes, off))
+                if waiter is not None:
+                    _PENDING_EXTERNAL[id(waiter)] = (off, nbytes)
         else:
-            EVENTS.append(("internal-delivery", nbytes))
+            EVENTS.append(("internal-delivery", nbytes, off))
         return orig_updated(self, nbytes)
 
     async def _wait_for_data(self, requester: str, external_buffer: Any):
@@ -58,7 +80,10 @@ def install() -> None:
         except asyncio.CancelledError:
             w = waiter_box[0] if waiter_box else None
             if w is not None and w.done() and not w.cancelled() and w.exception() is None and w.result():
-                EVENTS.append(("read-then-cancel", w.result()))
+                off, n = _PENDING_EXTERNAL.pop(id(w), (None, w.result()))
+                EVENTS.append(("read-then-cancel", w.result(), off))
+                if off is not None:
+                    LOST_RANGES.append((off, n))
             else:
                 EVENTS.append(("cancelled-receive", 0))
             raise
